@@ -227,6 +227,12 @@ def oracle(ctx: Ctx, case):
                 raise Violation("stuck", f"did not terminate under limit {lim}: {r.payload}", case)
             runs.append((lim, dec, r, res, d))
     base = runs[0]
+    if all(res[0] == "err" for _, _, _, res, _ in runs):
+        # the program fails with an uncaught error (ill-typed generated operands): which jobs were
+        # already recorded when the failure surfaced legitimately depends on timing; the property
+        # speaks of executions that return a value. (A run that fails under one schedule and
+        # returns under another is still compared, and reported.)
+        return {"orders": 0, "waited": 0, "uncaught": True}
     is_handle = case["family"] == "handle"
     info = {"orders": len({tuple(r.ctl.completion_order) for _, _, r, _, _ in runs}),
             "waited": sum(1 for _, _, r, _, _ in runs if r.waited)}
